@@ -36,6 +36,11 @@ type MutAnalysis struct {
 	// written by design; flows into values of these types are cut.
 	ExemptTypes map[string]string
 	Visited     map[string]bool
+	// AppendIsWrite reports append(x, elems...) with x reachable from the seed
+	// as a write: when x has spare capacity the elements are stored into the
+	// shared backing array (a data race between concurrent readers, and a
+	// corruption of the next reader's input).
+	AppendIsWrite bool
 }
 
 // NewMutAnalysis prepares the analysis.
@@ -421,6 +426,9 @@ func (m *MutAnalysis) Mutations(fn *ssa.Function, seeds []ssa.Value, chain []str
 			case ssa.CallInstruction:
 				com := x.Common()
 				pos := x.Pos()
+				if b, ok := com.Value.(*ssa.Builtin); ok && m.AppendIsWrite && b.Name() == "append" && len(com.Args) >= 2 && isD(com.Args[0]) && !m.exempt(com.Args[0].Type()) {
+					add(pos, "append to "+com.Args[0].Name()+" ("+TypeString(com.Args[0].Type())+"): writes into the shared backing array when it has spare capacity", nil)
+				}
 				if com.IsInvoke() {
 					// module interfaces only
 					mpk := com.Method.Pkg()
